@@ -70,6 +70,22 @@ def run(chk):
     # accumulation through the built-in backward rules (each operand has a second, later-created consumer)
     from props.C01 import grad_oracle
     grad_oracle(chk, 2 if chk.tier == "quick" else 20)
+    # reset_gradient() returns exactly to zero from ANY gradient state (inf, NaN, negative values, -0.0)
+    for _ in range(6 if chk.tier == "quick" else 100):
+        D = chk.rng.choice([1, 2, 3])
+        bits = [chk.rng.choice(BITS + ["ff800000", "7f800000", "c0a00000", "7fc12345"]) for _ in range(D)]
+        lines = ["D %d" % D, "param " + _graph.vec(chk.rng, D), "graph", "P 0 0", "pgradbits 0 " + ",".join(bits), "reset 0", "gradbits 0",
+                 "backward n0", "gradbits 0"]
+        for dev in ("naive", "eigen"):
+            impl, reports = vrun.run_impl(exe, lines, stateful=True, args=[dev], timeout=60)
+            chk.traces += 1
+            for l, o in zip(lines, impl):
+                chk.count(l, o, o.startswith("ok"))
+            zero = "ok " + ",".join(["00000000"] * D)
+            one = "ok " + ",".join(["3f800000"] * D)
+            if impl[6] != zero or impl[8] != one:
+                chk.report("graph:reset-gradient-not-zero", "gradient preset to bits %s: after reset_gradient() it is `%s` (want all zero bits), after reset + backward on the parameter node `%s` (want ones)" % (",".join(bits), impl[6], impl[8]),
+                           {"family": "graph", "harness": "h_graph", "harness_args": [dev], "stateful": True, "lines": lines, "observed": impl[-3:]})
     finish_obligations(chk)
     chk.stated_not_proved += ["Primitiv.C06.blocked_paths_untouched_full (false on this tree: its negation is proved with a witness in Props/Findings/C06Blocked.lean; known finding blocked-path-zero-add)"]
     chk.trusted += ["modelled, not verified: Graph::backward is hand-modelled in Lean (Model/Graph.lean) and tied to graph.cc by the correspondence run",
